@@ -813,5 +813,6 @@ func main() {
 	write("ReadGen.v", genReadIR(fset, files))       // read_ir.go
 	write("CycleGen.v", genCycleIR(fset, files))     // cycle_ir.go
 	write("PruneGen.v", genPruneIR(fset, files))     // prune_ir.go
+	write("CmdGen.v", genCmdIR(fset, files))         // cmd_ir.go
 	write("OutGen.v", genOutSafe(root))              // out_ir.go, out_scan.go, out_walk.go
 }
